@@ -53,6 +53,7 @@ CHEMS = {
     'G': ('Glucose', 'l', None),     # liquid-locked, N_solutes -> 0 (does not count as heavy solute)
     'X': ('NaCl', 'l', 2),           # liquid-locked, counts as 2 mol of solutes (F_mol_heavy > 0)
     'S': ('Sucrose', 's', None),     # solid-locked
+    'T': ('Tetradecanol', None, None),   # SLE solute (Tm = 312.65 K, Hfus known)
 }
 _chem_cache = {}
 _pkg_cache = {}
@@ -204,6 +205,13 @@ def flows_now(s):
     return out
 
 
+def rep_ok(w, s):
+    """No stored zero, keys inside the size (exact test natively: a stored 1e-15 is not a stored zero)."""
+    if w.symbolic:
+        return W.rep_ok(w, s)
+    return all(v != 0 and 0 <= i < sv.size for ph, sv in W.rows_of(s) for i, v in sv.dct.items())
+
+
 def ensure_material(w, s, before, keys, owned, vle=True, tag=''):
     """
     The sentences of C03 on stream s.  before: {(phase, ID): pre-state leaf}; owned: phases the calculation may change.
@@ -229,7 +237,7 @@ def ensure_material(w, s, before, keys, owned, vle=True, tag=''):
                     w.ensure(f'{tag}gas-locked {ID}: nothing in {ph}', w.eq(now[ph, ID], 0.))
         if vle and locked in ('l', 's'):
             w.ensure(f'{tag}{locked}-locked {ID}: nothing in g', w.eq(now['g', ID], 0.))
-    w.ensure(f'{tag}rep_ok (no stored zero)', W.rep_ok(w, s))
+    w.ensure(f'{tag}rep_ok (no stored zero)', rep_ok(w, s))
     return now
 
 
@@ -425,7 +433,311 @@ _A_VLE = ['A-bubble/dew: solve_Py/Ty/Px/Tx return P,T > 0 and a composition >= 0
           'A-fixed-point: VLE._solve_v_fixed_point returns an arbitrary real vector',
           'A-models: Psat, Tsat, mixture H/S/xH/xS and T-solvers return arbitrary values and only read the flows']
 
+ITERATIVE = ('TV', 'PV', 'PH', 'PS', 'TH', 'TS')
 for _spec in SPECS:
     group(f'C03/vle_{_spec}', configs=vle_configs(_spec),
           functions=[f'thermosteam.equilibrium.vle:{f}' for f in _VLE_COMMON + VLE_FUNCS[_spec]],
-          assumptions=_A_VLE)(vle_body(_spec))
+          assumptions=_A_VLE, l0=_spec in ITERATIVE)(vle_body(_spec))
+
+
+# --------------------------------------------------------------------------- loop-free helpers: clip in _solve_v + set_flows
+
+def clip_configs(tier):
+    fam = [('WE', {'W': '+?', 'E': '?+'}), ('WEN', {'W': '+0', 'E': '0+', 'N': '?+'}), ('WX', {'W': '++', 'X': '+0'})]
+    if tier == 'thorough':
+        fam += [('WEM', {'W': '+?', 'E': '?+', 'M': '++'}), ('WENX', {k: '??' for k in 'WENX'})]
+    return [{'name': f'{keys}/{_dist_name(d, keys)}', 'pkg': keys, 'dist': d} for keys, d in fam]
+
+
+@group('C03/solve_v_clip', configs=clip_configs, loop_free=True,
+       functions=['thermosteam.equilibrium.vle:VLE._solve_v', 'thermosteam.equilibrium.vle:set_flows',
+                  'thermosteam.equilibrium.vle:VLE._setup'],
+       assumptions=['A-fixed-point: VLE._solve_v_fixed_point returns an arbitrary real vector'])
+def solve_v_clip(w, cfg):
+    """Contract of VLE._solve_v used by the iterative groups: 0 <= v <= mol_vle, flows untouched; then set_flows conserves."""
+    W.reset_caches()
+    env = Env(w, cfg)
+    keys = cfg['pkg']
+    try:
+        install_vle_stubs(env)
+        th = havoc_thermo(env, keys)
+        s, before = multistream(w, 'f', th, 'gl', cfg['dist'], keys)
+        vle = s.vle
+        try:
+            vle._setup()
+        except NoEquilibrium:
+            return
+        after_setup = flows_now(s)
+        T = w.real('T', lo=0., lo_strict=True)
+        P = w.real('P', lo=0., lo_strict=True)
+        v = vle._solve_v(T, P)
+        mol = vle._mol_vle
+        index = vle._index
+        IDs = s.chemicals.IDs
+        for n, i in enumerate(index):
+            w.ensure(f'0 <= v[{IDs[i]}] <= mol_vle', w.And(w.ge(v[n], 0.), w.le(v[n], mol[n])))
+            w.ensure(f'mol_vle[{IDs[i]}] = l + g', w.eq(mol[n], before.get(('l', IDs[i]), 0.) + before.get(('g', IDs[i]), 0.)))
+        w.ensure('self._v is the returned vector', vle._v is v)
+        now = flows_now(s)
+        w.ensure('frame: _solve_v writes no flow', w.And(*[w.eq(now[k], after_setup[k]) for k in sorted(now)]))
+        vle_mod.set_flows(vle._vapor_mol, vle._liquid_mol, index, v, mol)
+        ensure_material(w, s, before, keys, owned=('g', 'l'), tag='after set_flows: ')
+        if len(index):
+            w.canary('canary: v[0] = mol_vle[0]', w.eq(v[0], mol[0]))
+        else:
+            w.canary('canary: false', False)
+    finally:
+        env.restore()
+
+
+# --------------------------------------------------------------------------- error callbacks preserve the invariant (any number of solver iterations)
+
+CALLBACKS = {'_V_err_at_P': ('P', 'V', None, None), '_V_err_at_T': ('T', 'V', None, None),
+             '_H_hat_err_at_T': ('T', 'H', None, None), '_H_hat_err_at_P': ('P', 'H'),
+             '_S_hat_err_at_T': ('T', 'S'), '_S_hat_err_at_P': ('P', 'S')}
+
+
+def callback_configs(tier):
+    out = []
+    fam = [('WE', {'W': '??', 'E': '++'}), ('WEN', {'W': '+?', 'E': '?+', 'N': '0+'})]
+    if tier == 'thorough':
+        fam += [('WEX', {'W': '??', 'E': '??', 'X': '+0'}), ('WEM', {'W': '+?', 'E': '?+', 'M': '++'})]
+    for cb in CALLBACKS:
+        for keys, d in fam:
+            out.append({'name': f'{cb}/{keys}/{_dist_name(d, keys)}', 'cb': cb, 'pkg': keys, 'dist': d})
+    return out
+
+
+@group('C03/vle_err_callbacks', configs=callback_configs,
+       functions=[f'thermosteam.equilibrium.vle:VLE.{c}' for c in CALLBACKS] + ['thermosteam.equilibrium.vle:VLE._solve_v', 'thermosteam.equilibrium.vle:set_flows'],
+       assumptions=_A_VLE)
+def vle_err_callbacks(w, cfg):
+    """
+    Inductive step for the havoc'ed iterative solvers: from ANY state that satisfies the material invariant (the planted
+    distribution after the real _setup) one evaluation of an error callback at an arbitrary argument leaves a state that
+    satisfies it.  Hence conservation/sign hold after any number of solver iterations.
+    """
+    W.reset_caches()
+    env = Env(w, cfg)
+    keys = cfg['pkg']
+    try:
+        install_vle_stubs(env)
+        th = havoc_thermo(env, keys)
+        s, before = multistream(w, 'f', th, 'gl', cfg['dist'], keys)
+        vle = s.vle
+        try:
+            vle._setup()
+        except NoEquilibrium:
+            return
+        vle._T = w.real('T', lo=0., lo_strict=True)
+        vle._P = w.real('P', lo=0., lo_strict=True)
+        arg = w.real('arg', lo=0., lo_strict=True)
+        target = w.real('target')
+        extra = CALLBACKS[cfg['cb']][2:]
+        r = getattr(vle, cfg['cb'])(arg, target, *extra)
+        now = ensure_material(w, s, before, keys, owned=('g', 'l'))
+        k0 = chem(keys[0]).ID
+        w.canary('canary: gas flow of first chemical is zero', w.eq(now['g', k0], 0.))
+    finally:
+        env.restore()
+
+
+# --------------------------------------------------------------------------- LLE
+
+class StubGamma(eq.ActivityCoefficients):
+    __slots__ = ('env',)
+    env_now = None
+
+    def __init__(self, chemicals):
+        self._chemicals = tuple(chemicals)
+        self.env = StubGamma.env_now
+
+    def __call__(self, x, T):
+        return self.env.arr([self.env.pos('gamma') for _ in self._chemicals])
+
+    f = None
+    args = ()
+
+
+def install_lle_stubs(env):
+    """
+    A-opt: LLE.solve_lle_liquid_mol returns mol_L inside the box 0 <= mol_L <= mol (bounds given to shgo /
+    differential_evolution; x*(1-phi) <= z for phi in [0,1], K >= 0 in the pseudo-equilibrium method);
+    phase_fraction returns a value in [0, 1] (as_valid_fraction).
+    """
+    w = env.w
+
+    def solve_lle_liquid_mol(self, mol, T, lle_chemicals, single_loop):
+        env.count('solve_lle')
+        out = []
+        for i in range(len(lle_chemicals)):
+            v = env.leaf(f'molL{i}', lo=0.)
+            w.assume(w.le(v, mol[i]))
+            out.append(v)
+        return env.arr(out)
+
+    def phase_fraction(zs, Ks, guess=None, za=0., zb=0.):
+        env.count('phase_fraction')
+        return env.unit('phi')
+
+    env.patch(lle_mod.LLE, 'solve_lle_liquid_mol', solve_lle_liquid_mol)
+    env.patch(lle_mod, 'phase_fraction', phase_fraction)
+
+
+def lle_configs(tier):
+    out = []
+    fam = [
+        ('WO', 'lL', {'W': '+?', 'O': '?+'}, None, 1),
+        ('WO', 'lL', {'W': '++', 'O': '++'}, 'Octane', 1),
+        ('WO', 'lL', {'W': '+0', 'O': '0+'}, 'Water', 2),
+        ('WO', 'glL', {'W': '++?', 'O': '?0+'}, None, 1),
+        ('WOG', 'lL', {'W': '+0', 'O': '0+', 'G': '?+'}, 'Octane', 1),
+        ('WN', 'lL', {'W': '+?', 'N': '?+'}, None, 1),          # fewer than 2 LLE chemicals: everything pooled in one phase
+        ('W', 'lL', {'W': '??'}, None, 1),
+    ]
+    if tier == 'thorough':
+        fam += [
+            ('WO', 'lL', {'W': '??', 'O': '??'}, 'Octane', 2),
+            ('WEO', 'lL', {'W': '+?', 'E': '++', 'O': '?+'}, 'Octane', 1),
+            ('WEO', 'lL', {'W': '+0', 'E': '+0', 'O': '0+'}, None, 2),
+            ('WOG', 'glL', {'W': '++?', 'O': '?0+', 'G': '0?+'}, 'Water', 2),
+        ]
+    for keys, phases, d, top, calls in fam:
+        out.append({'name': f'{keys}/{phases}/{_dist_name(d, keys)}/top={top}/calls={calls}', 'pkg': keys, 'phases': phases,
+                    'dist': d, 'top': top, 'calls': calls})
+    return out
+
+
+@group('C03/lle', configs=lle_configs,
+       functions=['thermosteam.equilibrium.lle:LLE.__call__', 'thermosteam.equilibrium.lle:LLE.get_liquid_mol_data'],
+       assumptions=['A-opt: LLE.solve_lle_liquid_mol returns 0 <= mol_L <= mol (solver box)',
+                    'A-phase-fraction: binary_phase_fraction.phase_fraction returns a value in [0, 1]'])
+def lle(w, cfg):
+    W.reset_caches()
+    env = Env(w, cfg)
+    keys = cfg['pkg']
+    try:
+        install_lle_stubs(env)
+        th = havoc_thermo(env, keys)
+        s, before = multistream(w, 'f', th, cfg['phases'], cfg['dist'], keys)
+        lle_obj = s.lle
+        now = None
+        for n in range(cfg['calls']):
+            T = w.real(f'T{n}', lo=0., lo_strict=True)
+            P = w.real(f'P{n}', lo=0., lo_strict=True) if n % 2 == 0 else None
+            try:
+                lle_obj(T, P, top_chemical=cfg['top'])
+            except NOT_NORMAL as e:
+                w.note(outcome=type(e).__name__)
+                return
+            now = ensure_material(w, s, before, keys, owned=('l', 'L'), vle=False, tag=f'call {n}: ')
+        k0 = chem(keys[0]).ID
+        w.canary('canary: l flow of first chemical unchanged + 1', w.eq(now['l', k0], before.get(('l', k0), 0.) + 1))
+        w.note(calls=dict(env.calls), flows=now)
+    finally:
+        env.restore()
+
+
+# --------------------------------------------------------------------------- SLE
+
+class _StubCn:
+    def __init__(self, env): self.env = env
+    def l(self, T, *a): return self.env.pos('Cn.l')
+    def s(self, T, *a): return self.env.pos('Cn.s')
+    def g(self, T, *a): return self.env.pos('Cn.g')
+    def __call__(self, phase, T, *a): return self.env.pos('Cn')
+
+
+def install_sle_stubs(env):
+    """
+    A-models: solubility_eutectic, Cn.l/Cn.s, activity coefficients, mixture xH and T-solvers return arbitrary values;
+    A-iter:   flx.aitken evaluates its callback k times at arbitrary arguments and returns an arbitrary value.
+    """
+    class StubFlx:
+        @staticmethod
+        def aitken(f, x, xtol=None, args=(), maxiter=50, **kw):
+            env.count('aitken')
+            r = env.leaf('aitken_x')
+            for _ in range(env.k):
+                r = env.leaf('aitken_x')
+                f(r, *args)
+            return r
+
+        def __getattr__(self, name):
+            raise AssertionError(f'unexpected flexsolve call in sle.py: {name}')
+
+    env.patch(sle_mod, 'flx', StubFlx())
+    env.patch(sle_mod, 'solubility_eutectic', lambda *a, **kw: env.leaf('x_eutectic'))
+    for k in env.cfg['pkg']:
+        env.patch(chem(k), '_Cn', _StubCn(env))
+    StubGamma.env_now = env
+
+
+def sle_configs(tier):
+    out = []
+    fam = [
+        ('WT', 'ls', {'W': '+0', 'T': '?+'}, ['T'], 1),
+        ('WT', 'ls', {'W': '+?', 'T': '++'}, ['H'], 1),
+        ('WT', 'ls', {'W': '+0', 'T': '+?'}, ['T', 'Tx'], 1),
+        ('WT', 'ls', {'W': '+0', 'T': '+0'}, ['T', 'Hx'], 0),
+        ('WT', 'ls', {'W': '00', 'T': '??'}, ['T'], 0),          # pure solute, T given
+        ('WT', 'ls', {'W': '00', 'T': '+?'}, ['H'], 0),          # pure solute, H given
+        ('WT', 'gls', {'W': '?+0', 'T': '0+?'}, ['T'], 1),
+    ]
+    if tier == 'thorough':
+        fam += [
+            ('WMT', 'ls', {'W': '+?', 'M': '?+', 'T': '??'}, ['T'], 2),
+            ('WMT', 'ls', {'W': '+?', 'M': '+0', 'T': '+?'}, ['H'], 2),
+            ('WT', 'ls', {'W': '??', 'T': '??'}, ['T', 'H'], 1),
+            ('WT', 'ls', {'W': '+?', 'T': '?+'}, ['H', 'Tx', 'Hx'], 1),
+        ]
+    for keys, phases, d, calls, k in fam:
+        out.append({'name': f'{keys}/{phases}/{_dist_name(d, keys)}/{"+".join(calls)}/k={k}', 'pkg': keys, 'phases': phases,
+                    'dist': d, 'calls': calls, 'k': k})
+    return out
+
+
+for _k in ('WT', 'WMT'):
+    pkg(_k)
+
+
+@group('C03/sle', configs=sle_configs,
+       functions=['thermosteam.equilibrium.sle:SLE.__call__', 'thermosteam.equilibrium.sle:SLE._setup',
+                  'thermosteam.equilibrium.sle:SLE._update_solubility', 'thermosteam.equilibrium.sle:SLE._solve_x',
+                  'thermosteam.equilibrium.sle:SLE._x_iter'],
+       assumptions=['A-models: solubility_eutectic, Cn, activity coefficients, mixture energies return arbitrary values',
+                    'A-iter: flx.aitken only evaluates its callback (k times, arbitrary arguments)'])
+def sle(w, cfg):
+    """Calls: 'T' / 'H' = sle(solute, T=..) / (H=..);  'Tx' / 'Hx' = the same with a given solubility."""
+    W.reset_caches()
+    env = Env(w, cfg)
+    keys = cfg['pkg']
+    solute = 'Tetradecanol'
+    try:
+        install_sle_stubs(env)
+        th = havoc_thermo(env, keys, Gamma=StubGamma)
+        s, before = multistream(w, 'f', th, cfg['phases'], cfg['dist'], keys)
+        sle_obj = s.sle
+        now = None
+        for n, call in enumerate(cfg['calls']):
+            kw = {}
+            if call[0] == 'T': kw['T'] = w.real(f'T{n}', lo=0., lo_strict=True)
+            else: kw['H'] = w.real(f'H{n}')
+            if call.endswith('x'): kw['solubility'] = w.real(f'x{n}')
+            pre = flows_now(s)
+            try:
+                sle_obj(solute, **kw)
+            except NOT_NORMAL + (AttributeError,) as e:   # AttributeError: solubility given before any _setup (no result)
+                if isinstance(e, AttributeError) and not call.endswith('x'):
+                    raise
+                w.note(outcome=type(e).__name__)
+                return
+            now = ensure_material(w, s, before, keys, owned=('l', 's'), vle=False, tag=f'call {n}: ')
+            for (ph, ID), v in sorted(now.items()):
+                if ID != solute:
+                    w.ensure(f'call {n}: frame: only the solute moves, flow[{ph},{ID}] unchanged', w.eq(v, pre[ph, ID]))
+        w.canary('canary: solid solute unchanged + 1', w.eq(now['s', solute], before.get(('s', solute), 0.) + 1))
+        w.note(calls=dict(env.calls), flows=now)
+    finally:
+        env.restore()
+        StubGamma.env_now = None
